@@ -473,6 +473,14 @@ func amplifiers() [][]byte {
 	for _, k := range [][2]int{{205, 1}, {205, 2}, {206, 4}} {
 		out = append(out, frame(k[0], k[1], rep([]byte{0xFF, 0xFE, 0xFD, 0xFC}, 360)))
 	}
+	// datagrams of very many frames (a cap or a per-datagram table would show here): C06, C07
+	pli := frame(206, 1, []byte{1, 2, 3, 4, 5, 6, 7, 8})
+	for _, n := range []int{129, 150, 300, 1000} {
+		dg := rep(pli, n)
+		dg = append(dg, frame(210, 7, []byte{9, 9, 9, 9})...)
+		out = append(out, dg)
+	}
+	out = append(out, rep([]byte{0x80, 199, 0, 0}, 2000))
 	return out
 }
 
